@@ -774,7 +774,8 @@ class XsdElement(XsdComponent, ParticleMixin,
                 elif text == self.fixed:
                     pass
                 elif not strictly_equal(xsd_type.text_decode(text, context=context),
-                                        xsd_type.text_decode(self.fixed)):
+                                        xsd_type.text_decode(self.fixed)) and \
+                        not self.is_fixed_number(xsd_type.text_decode(text, context=context)):
                     reason = _("must have the fixed value %r") % self.fixed
                     context.validation_error(validation, self, reason, obj)
 
@@ -1128,6 +1129,18 @@ class XsdElement(XsdComponent, ParticleMixin,
                         any(name == e.qualified_name for e in self.iter_substitutes()))
 
         return name == self.name or name in self.substitutes
+
+    def is_fixed_number(self, value: Any) -> bool:
+        """
+        Returns `True` if the value, decoded with a type selected by xsi:type, is a
+        decimal number equal to the fixed value in the value space of the declared
+        type (e.g. '1' as xs:integer for a declared xs:decimal fixed to '1.0').
+        """
+        if self.fixed is None or self.type.simple_type is None or \
+                type(value) not in (int, Decimal):
+            return False
+        fixed_value = self.type.text_decode(self.fixed)
+        return type(fixed_value) in (int, Decimal) and value == fixed_value
 
     def is_fixed_text(self, text: Optional[str]) -> bool:
         """
